@@ -153,6 +153,26 @@ fn main() {
             },
             19 => run::<bool>(&b),
             20 => run::<Vec<bool>>(&b),
+            // the primitive readers with a cursor that safe code has moved past the end (the fields of SliceInput are
+            // public): an error or a panic, never a read outside the slice
+            21 => {
+                use desert_core::BinaryInput;
+                let mut any_ok = false;
+                for over in [1usize, 2, 7] {
+                    let data: &[u8] = &b;
+                    let r = std::panic::catch_unwind(|| {
+                        let mut i = desert_core::SliceInput { data, pos: data.len() + over };
+                        let a = i.read_u8().is_ok();
+                        let mut j = desert_core::SliceInput { data, pos: data.len() + over };
+                        let c = j.read_var_u32().is_ok();
+                        let mut k = desert_core::SliceInput { data, pos: data.len() + over };
+                        let d = k.read_bytes(1).is_ok();
+                        a || c || d
+                    });
+                    any_ok |= r.unwrap_or(false);
+                }
+                any_ok
+            }
             other => panic!("type {other}"),
         };
         println!("{} {}", i, if ok { "ok" } else { "err" });
